@@ -952,6 +952,38 @@ pub fn run(out: &mut dyn Write, prop: &str, seed: u64, thorough: bool) -> std::i
             let mut o = base(t);
             o.ctl_share = 7;
             go(out, &mut rng, "find", &o, n(1500, 20000))?;
+            // large inputs and chunks, sparse predicates: a match deep inside an early chunk and
+            // another one at the beginning of a later chunk, real threads
+            for _ in 0..n(160, 1600) {
+                let kinds = *rng.pick(&["", "M", "F", "MF", "P", "PF", "MM"]);
+                let ops: Vec<OpD> = kinds
+                    .chars()
+                    .map(|k| match k {
+                        'F' => OpD::Filter { k: rng.range(7, 13), r: 0 },
+                        'P' => OpD::FilterMap { k: rng.range(7, 13), r: 1, a: rng.range(0, 9) },
+                        k => gen_op(&mut rng, k),
+                    })
+                    .collect();
+                let len = rng.range(6000, 40000) as usize;
+                let input = gen_input(&mut rng, len, true);
+                let cz = *rng.pick(&[512usize, 1024, 4096, 4096, 8192, 8192, 16384, len / 2, len / 3 + 1, len / 5 + 1]);
+                let nt = rng.range(2, 6) as usize;
+                let mut sets = vec![vec![]; ops.len() + 1];
+                sets[0] = vec![SetD::NtUsize(nt), if rng.chance(2, 3) { SetD::CsEnum(ChunkSize::Exact(nz(cz))) } else { SetD::CsEnum(ChunkSize::Min(nz(cz))) }];
+                let pd = PredD { k: *rng.pick(&[1500u64, 3000, 5000, 9000, 20000]), r: rng.below(1500) };
+                let concrete_ok = matches!(kinds, "" | "M" | "F" | "MF" | "MM");
+                let full_ok = kinds.len() <= 1;
+                let term = match rng.below(5) {
+                    1 if full_ok => TermD::Any(pd),
+                    2 if full_ok => TermD::All(PredD { k: pd.k, r: pd.r }),
+                    3 if concrete_ok => TermD::FindIdx(pd),
+                    _ => TermD::Find(pd),
+                };
+                let src_kind = *rng.pick(&['v', 'v', 'k', 'u']);
+                let c = Case { src_kind, input, ops, sets, term, mode: Mode::Free(0), panic_at: None };
+                emit_case(out, "large", &c, false)?;
+                total_c.set(total_c.get() + 1);
+            }
         }
         "C03" => {
             let mut t = vec![TermD::Sum, TermD::Min, TermD::Max, TermD::MinBy, TermD::MaxBy];
